@@ -103,7 +103,10 @@ def load_stl_binary(file_obj):
     # of the file doesn't match the header, the loaded version is almost
     # certainly going to be garbage.
     len_data = data_end - data_start
-    len_expected = header["face_count"] * _stl_dtype.itemsize
+    # use a native integer: uint32 arithmetic wraps for large
+    # corrupt counts which can then match the file length by accident
+    face_count = int(header["face_count"][0])
+    len_expected = face_count * _stl_dtype.itemsize
 
     # this check is to see if this really is a binary STL file.
     # if we don't do this and try to load a file that isn't structured properly
@@ -122,7 +125,7 @@ def load_stl_binary(file_obj):
 
     # all of our vertices will be loaded in order
     # so faces are just sequential indices reshaped.
-    faces = np.arange(header["face_count"][0] * 3).reshape((-1, 3))
+    faces = np.arange(face_count * 3).reshape((-1, 3))
 
     # there are two bytes per triangle saved for anything
     # which is sometimes used for face color
